@@ -7,7 +7,128 @@ import (
 	"golang.org/x/tools/go/ssa"
 )
 
+// hasSymKey: does a map key contain symbolic parts (so that it cannot be hashed)?
+func hasSymKey(k Value) bool {
+	switch k := k.(type) {
+	case Int:
+		return k.T != nil
+	case Bool:
+		return k.T != nil
+	case Str:
+		return !k.isC()
+	case Iface:
+		return hasSymKey(k.V)
+	case Struct:
+		for _, f := range k {
+			if hasSymKey(f) {
+				return true
+			}
+		}
+	case Array:
+		for _, f := range k {
+			if hasSymKey(f) {
+				return true
+			}
+		}
+	}
+	return false
+}
+
+// keyEqTerm: structural equality of two map keys of the same static type, as a term.
+func keyEqTerm(a, b Value) *Term {
+	switch x := a.(type) {
+	case Int:
+		if y, ok := b.(Int); ok && y.W == x.W {
+			return mkEq(x.term(), y.term())
+		}
+	case Bool:
+		if y, ok := b.(Bool); ok {
+			return mkEq(x.term(), y.term())
+		}
+	case Str:
+		if y, ok := b.(Str); ok {
+			return strEq(x, y)
+		}
+	case Float:
+		if y, ok := b.(Float); ok {
+			return boolConst(x.V == y.V)
+		}
+	case Iface:
+		if y, ok := b.(Iface); ok {
+			if x.T == nil || y.T == nil {
+				return boolConst(x.T == nil && y.T == nil)
+			}
+			if !types.Identical(x.T, y.T) {
+				return tFalse
+			}
+			return keyEqTerm(x.V, y.V)
+		}
+	case Struct:
+		if y, ok := b.(Struct); ok && len(y) == len(x) {
+			t := tTrue
+			for i := range x {
+				t = mkAnd(t, keyEqTerm(x[i], y[i]))
+			}
+			return t
+		}
+	case Array:
+		if y, ok := b.(Array); ok && len(y) == len(x) {
+			t := tTrue
+			for i := range x {
+				t = mkAnd(t, keyEqTerm(x[i], y[i]))
+			}
+			return t
+		}
+	case *Value:
+		if y, ok := b.(*Value); ok {
+			return boolConst(x == y)
+		}
+	case RT:
+		if y, ok := b.(RT); ok {
+			return boolConst(types.Identical(x.T, y.T))
+		}
+	case nil:
+		return boolConst(b == nil)
+	}
+	return tFalse
+}
+
+// scanKey: for keys with symbolic parts inside structs or arrays the entries are searched one by one,
+// each comparison decided by the solver (forks). Returns the index of the matching live entry or -1.
+func (e *Engine) scanKey(m *MapV, k Value) int {
+	for i, kk := range m.keys {
+		if m.del[i] {
+			continue
+		}
+		if e.Branch(keyEqTerm(k, kk)) {
+			return i
+		}
+	}
+	return -1
+}
+
+func compositeSymKey(m *MapV, k Value) bool {
+	switch k.(type) {
+	case Struct, Array:
+		if hasSymKey(k) {
+			return true
+		}
+		for i, kk := range m.keys {
+			if !m.del[i] && hasSymKey(kk) {
+				return true
+			}
+		}
+	}
+	return false
+}
+
 func (e *Engine) mapGet(m *MapV, k Value) (Value, bool) {
+	if compositeSymKey(m, k) {
+		if i := e.scanKey(m, k); i >= 0 {
+			return m.vals[i], true
+		}
+		return nil, false
+	}
 	if s, ok := k.(Str); ok && !s.isC() {
 		// fork over existing string keys
 		for i, kk := range m.keys {
@@ -63,6 +184,17 @@ func (e *Engine) mapGet(m *MapV, k Value) (Value, bool) {
 }
 
 func (e *Engine) mapSet(m *MapV, k, v Value) {
+	if compositeSymKey(m, k) {
+		if i := e.scanKey(m, k); i >= 0 {
+			m.vals[i] = v
+			return
+		}
+		m.keys = append(m.keys, k)
+		m.vals = append(m.vals, v)
+		m.del = append(m.del, false)
+		m.n++
+		return
+	}
 	if s, ok := k.(Str); ok && !s.isC() {
 		for i, kk := range m.keys {
 			if m.del[i] {
@@ -89,6 +221,13 @@ func (e *Engine) mapSet(m *MapV, k, v Value) {
 
 // mapDelete removes key k; a symbolic string key is matched against the stored keys by forking.
 func (e *Engine) mapDelete(m *MapV, k Value) {
+	if compositeSymKey(m, k) {
+		if i := e.scanKey(m, k); i >= 0 {
+			m.del[i] = true
+			m.n--
+		}
+		return
+	}
 	if s, ok := k.(Str); ok && !s.isC() {
 		for i, kk := range m.keys {
 			if m.del[i] {
@@ -246,6 +385,10 @@ func nextCap(oldCap, needed int) int {
 
 func (e *Engine) builtin(b *ssa.Builtin, args []Value, call *ssa.Call) Value {
 	switch b.Name() {
+	case "close":
+		c, _ := args[0].(*ChanV)
+		e.chanClose(c)
+		return nil
 	case "ssa:wrapnilchk":
 		// value-receiver method called through a pointer: the wrapper panics on a nil pointer
 		if p, ok := args[0].(*Value); ok && p == nil {
@@ -263,6 +406,11 @@ func (e *Engine) builtin(b *ssa.Builtin, args []Value, call *ssa.Call) Value {
 				return mkInt(64, 0)
 			}
 			return mkInt(64, uint64(x.n))
+		case *ChanV:
+			if x == nil {
+				return mkInt(64, 0)
+			}
+			return mkInt(64, uint64(len(x.buf)))
 		case Array:
 			return mkInt(64, uint64(len(x)))
 		case *Value:
@@ -302,7 +450,9 @@ func (e *Engine) builtin(b *ssa.Builtin, args []Value, call *ssa.Call) Value {
 		nc := nextCap(s.Cap, n)
 		arr := make([]Value, nc)
 		for i := 0; i < s.Len; i++ {
-			arr[i] = (*s.A)[s.Off+i]
+			// a fresh backing array: by-value elements (structs, arrays) must not stay shared with the
+			// abandoned array, or a write through a stale element pointer would show in the new one
+			arr[i] = copyVal((*s.A)[s.Off+i])
 		}
 		copy(arr[s.Len:], add)
 		var et types.Type
